@@ -52,7 +52,7 @@ def run(ctx):
         return st
 
     # --- G5 x G4
-    nmol = 1000 if quick else 8000
+    nmol = 1000 if quick else 20000
     for i in range(nmol):
         if i % 25 == 0:
             t = tablegen.any_table(rng)
